@@ -85,19 +85,69 @@ theorem run_spec_plain (out : List Tup) (lit nm : List Char) (cv : Option Char) 
     have : step (.spec out lit nm cv n acc) c = .spec out lit nm cv n (acc ++ [c]) := by simp [step, hc.1, hc.2]
     rw [this, ih _ hcs]; simp
 
+/-- A format spec as `parse_field` reads it to its end: every `{` in it is closed by a `}` of its own
+    (`d` = braces open so far). Nested replacement fields, to any depth, are of this form. -/
+def specBalanced : Nat → List Char → Bool
+  | d, [] => d == 0
+  | d, c :: cs =>
+    if c = '{' then specBalanced (d + 1) cs
+    else if c = '}' then (match d with
+      | 0 => false
+      | d' + 1 => specBalanced d' cs)
+    else specBalanced d cs
+
+theorem specBalanced_of_noBrace (cs : List Char) (h : NoBrace cs) : specBalanced 0 cs = true := by
+  induction cs with
+  | nil => rfl
+  | cons c cs ih =>
+    have hc := h c (by simp)
+    have hcs : NoBrace cs := fun d hd => h d (by simp [hd])
+    simp [specBalanced, hc.1, hc.2, ih hcs]
+
+/-- balanced text inside a format spec is accumulated, the brace counter back where it was -/
+theorem run_spec_balanced (out : List Tup) (lit nm : List Char) (cv : Option Char) (d : Nat) (acc cs : List Char)
+    (h : specBalanced d cs = true) :
+    run (.spec out lit nm cv (d + 1) acc) cs = .spec out lit nm cv 1 (acc ++ cs) := by
+  induction cs generalizing d acc with
+  | nil =>
+    have : d = 0 := by simpa [specBalanced] using h
+    subst this; simp [run_nil]
+  | cons c cs ih =>
+    rw [run_cons]
+    by_cases h1 : c = '{'
+    · subst h1
+      have h' : specBalanced (d + 1) cs = true := by simpa [specBalanced] using h
+      have : step (.spec out lit nm cv (d + 1) acc) '{' = .spec out lit nm cv (d + 1 + 1) (acc ++ ['{']) := by
+        simp [step]
+      rw [this, ih _ _ h']; simp
+    · by_cases h2 : c = '}'
+      · subst h2
+        cases d with
+        | zero => simp [specBalanced] at h
+        | succ d' =>
+          have h' : specBalanced d' cs = true := by simpa [specBalanced] using h
+          have : step (.spec out lit nm cv (d' + 1 + 1) acc) '}' = .spec out lit nm cv (d' + 1) (acc ++ ['}']) := by
+            simp [step]
+          rw [this, ih _ _ h']; simp
+      · have h' : specBalanced d cs = true := by simpa [specBalanced, h1, h2] using h
+        have : step (.spec out lit nm cv (d + 1) acc) c = .spec out lit nm cv (d + 1) (acc ++ [c]) := by
+          simp [step, h1, h2]
+        rw [this, ih _ _ h']; simp
+
 /-- The canonical text of a replacement field: `{name}`, `{name:spec}`, `{name!c}`, `{name!c:spec}`. -/
 def FieldT.tail (f : FieldT) : List Char :=
   (match f.conv with | none => [] | some c => ['!', c]) ++ ((if f.spec = [] then [] else ':' :: f.spec) ++ ['}'])
 
 def FieldT.text (f : FieldT) : List Char := '{' :: (f.name ++ f.tail)
 
-/-- A field the grammar can write: a proper field name, a brace-free spec. -/
+/-- A field the grammar can write: a proper field name, a spec whose braces balance (so: any spec
+    without braces, and any spec with nested replacement fields, to any depth). -/
 structure FieldT.WellFormed (f : FieldT) : Prop where
   name : isFieldName false f.name = true
-  spec : NoBrace f.spec
+  spec : specBalanced 0 f.spec = true
 
 /-- from the `name` state, the rest of a well-formed field closes it -/
-theorem run_field_tail (out : List Tup) (lit : List Char) (f : FieldT) (hs : NoBrace f.spec) :
+theorem run_field_tail (out : List Tup) (lit : List Char) (f : FieldT) (hs : specBalanced 0 f.spec = true) :
     run (.name out lit f.name false) f.tail = .lit (out ++ [⟨lit, some f⟩]) [] := by
   obtain ⟨name, spec, conv⟩ := f
   simp only [FieldT.tail] at hs ⊢
@@ -107,7 +157,7 @@ theorem run_field_tail (out : List Tup) (lit : List Char) (f : FieldT) (hs : NoB
     · subst hsp; simp [run_cons, run_nil, step, stepName]
     · simp only [hsp, if_false, List.nil_append, List.cons_append, run_cons]
       have : step (.name out lit name false) ':' = .spec out lit name none 1 [] := by simp [step, stepName]
-      rw [this, run_append, run_spec_plain _ _ _ _ _ _ _ hs]
+      rw [this, run_append, run_spec_balanced _ _ _ _ _ _ _ hs]
       simp [run_cons, run_nil, step]
   | some c =>
     by_cases hsp : spec = []
@@ -116,7 +166,7 @@ theorem run_field_tail (out : List Tup) (lit : List Char) (f : FieldT) (hs : NoB
       have h1 : step (.name out lit name false) '!' = .bang out lit name := by simp [step, stepName]
       have h2 : step (.bang out lit name) c = .conv out lit name c := by simp [step]
       have h3 : step (.conv out lit name c) ':' = .spec out lit name (some c) 1 [] := by simp [step]
-      rw [h1, h2, h3, run_append, run_spec_plain _ _ _ _ _ _ _ hs]
+      rw [h1, h2, h3, run_append, run_spec_balanced _ _ _ _ _ _ _ hs]
       simp [run_cons, run_nil, step]
 
 /-- the first character of a field tail is `}` `:` or `!`, on which `.opened` acts as the name loop -/
